@@ -129,9 +129,15 @@ func (c *RedialPacketConn) exchange(conn net.PacketConn) {
 		}
 	}()
 
+	// Also stop when the RedialPacketConn itself is closed: the two
+	// goroutines above only notice c.closed between operations, and when
+	// both are blocked inside the carrier (an idle ReadFrom and a WriteTo
+	// that hangs on a dead transport), nothing but closing the carrier,
+	// which dialLoop does as soon as we return, makes them come back.
 	select {
 	case <-readErrCh:
 	case <-writeErrCh:
+	case <-c.closed:
 	}
 }
 
